@@ -322,11 +322,17 @@ def gen_text(t):
     return "".join(out)
 
 
+def bracket_ok(v, br):
+    """what hy.models.String accepts as a bracket string: the content must not run into the closer, the delimiter must not
+    make it an f-string, and no carriage return (none of these can be written as a bracket string)"""
+    return ("]%s]" % br) not in (v + "]" + br) and not (br == "f" or br.startswith("f-")) and "\r" not in v
+
+
 def gen_str_node(t, m=None, br_ok=True):
     v = gen_text(t)
     m = t.pick([0, 0, 1]) if m is None else m
     br = t.pick(BRACKETS) if (m and br_ok) else None
-    if br is not None and "]%s]" % br in v:
+    if br is not None and not bracket_ok(v, br):
         br = None
     return {"t": "str", "v": v, "m": m, "br": br}
 
